@@ -70,7 +70,7 @@ func cfgS2(prop string, seed uint64, tier string) *RunCfg {
 	c.Knobs["observers"] = r.Intn(3)
 	for w := 0; w < nw; w++ {
 		for i := 0; i < per; i++ {
-			kind := []string{"incr", "incr", "uniq", "gen", "gen", "refs", "select", "fail"}[r.Intn(8)]
+			kind := []string{"incr", "incr", "uniq", "gen", "gen", "refs", "select", "select", "bulk", "fail"}[r.Intn(10)]
 			c.Txns = append(c.Txns, TxnSpec{Actor: fmt.Sprintf("w%d", w), GenSeed: r.Uint64(), Profile: "valid-sw", Kind: kind, Arg: r.Intn(3)})
 		}
 	}
@@ -210,9 +210,15 @@ func (s *s2) issue(w int) {
 		// several writers compete for the same unique name
 		name := fmt.Sprintf("uniq-%d", ct.spec.Arg)
 		ops = []Op{{"op": "insert", "table": "Root", "uuid": fmt.Sprintf("%08x-1111-4000-a000-%012d", ct.idx+1, w), "row": map[string]any{"name": name, "ia": 200000 + ct.idx, "ib": "uq", "kind": "b"}}, marker}
+	case "bulk":
+		// one transaction changes every row of a table: a concurrent reader must see all of it or none
+		ops = []Op{{"op": "mutate", "table": "Root", "where": []any{}, "mutations": []any{[]any{"ratio", "+=", 1.0}}}, marker}
 	case "select":
-		t := e.Sch.Tables[e.Sch.TableNames[r.Intn(len(e.Sch.TableNames))]]
-		ops = []Op{{"op": "select", "table": t.Name, "where": []any{}}}
+		tn := "Root"
+		if r.Intn(3) == 0 {
+			tn = e.Sch.TableNames[r.Intn(len(e.Sch.TableNames))]
+		}
+		ops = []Op{{"op": "select", "table": tn, "where": []any{}, "columns": []string{"_uuid", e.Sch.Tables[tn].ColNames[0], map[bool]string{true: "ratio", false: e.Sch.Tables[tn].ColNames[0]}[tn == "Root"]}}}
 		ct.marker = "" // read-only: leaves no trace
 	case "fail":
 		bad := []Op{
